@@ -8,8 +8,8 @@ import (
 	"github.com/taskctl/taskctl/internal/vh/common"
 )
 
-func mine(idx int64) bool     { return common.Mine(idx) }
-func expired() bool           { return common.Expired() }
-func common_Unit() *string    { return common.Unit }
-func common_Tier() *string    { return common.Tier }
-func sortStrings(s []string)  { sort.Strings(s) }
+func mine(idx int64) bool    { return common.Mine(idx) }
+func expired() bool          { return common.Expired() }
+func common_Unit() *string   { return common.Unit }
+func common_Tier() *string   { return common.Tier }
+func sortStrings(s []string) { sort.Strings(s) }
